@@ -250,7 +250,6 @@ func VerifC06_ErrorWithoutRunIDWhileBusy() {
 	verifAssert("C06/busy/run-in-flight-returns", ra.Error != nil || ra.OutputID == "ok")
 	cerr := sess.client.Close()
 	verifAssert("C06/busy/close", cerr == nil)
-	sess.drain() // the held step finishes after the client has gone
 	sess.srvDone.Wait()
 	verifReach("C06/busy/end")
 }
